@@ -231,6 +231,15 @@ def apply_op(obj, op):
     elif k == "del":
         obj.delete(op[1], bool(op[2]))
     elif k == "pop":
+        kind = op[3] if len(op) > 3 else "D"
+        if kind == "none":            # no default given: a miss returns None
+            return obj.pop(op[1], recursively=bool(op[2]))
+        if kind == "same":            # the caller's default happens to be the very value stored there
+            try:
+                cur = obj[op[1]]
+            except Exception:  # noqa
+                cur = DFLT
+            return obj.pop(op[1], cur, bool(op[2]))
         return obj.pop(op[1], DFLT, bool(op[2]))
     else:
         raise ValueError(k)
